@@ -1168,13 +1168,26 @@ impl<T: PPGEvaluatorStrategy> PPGEvaluator<T> {
     fn process_signals(&mut self, depth: u32) -> Result<(), PPGEvaluatorError> {
         debug!("");
         debug!("Process signals, depth {}", depth);
-        let res = self.inner_process_signals(depth);
+        // signals emitted while handling a batch are handled in further rounds; iterate
+        // instead of recursing so that deep graphs neither exhaust the stack nor a fixed limit
+        let mut depth = depth;
+        let res = loop {
+            match self.inner_process_signals(depth) {
+                Ok(()) => {
+                    if self.signals.is_empty() {
+                        break Ok(());
+                    }
+                    depth += 1;
+                }
+                Err(e) => break Err(e),
+            }
+        };
         debug!("Leaving process signals, {}", depth);
         res
     }
 
     fn inner_process_signals(&mut self, depth: u32) -> Result<(), PPGEvaluatorError> {
-        if depth > 1500 {
+        if depth as usize > 1500 + 10 * self.jobs.len() {
             return Err(PPGEvaluatorError::InternalError("Depth ConsiderJob loop. Either pathological input, or bug. Aborting to avoid stack overflow".to_string()));
         }
         let mut new_signals = Vec::new();
@@ -1573,9 +1586,6 @@ impl<T: PPGEvaluatorStrategy> PPGEvaluator<T> {
                 self.signals.push_back(s);
             }
             //self.signals.extend(new_signals.drain(..));
-        }
-        if !self.signals.is_empty() {
-            self.process_signals(depth + 1)?;
         }
         Ok(())
     }
